@@ -232,4 +232,17 @@ Section Sound.
       + rewrite (nth_map_opt fst). rewrite (nth_map_opt (finish_disk clearpast inf)). rewrite A. reflexivity.
       + apply finish_sound. exact B.
   Qed.
+  (* C19 identity_keeps, extracted from disk_sound *)
+  Theorem identity_keeps usable c listing o :
+    scan basef bs clearpast nocopy inf usable c listing = Some o ->
+    forall k d0, nth k (c_disks c) None = Some d0 ->
+    exists dk, nth k (c_disks (sc_content o)) None = Some dk /\
+    forall f, In f (cd_files dk) -> (exists b, In b (cf_blocks f) /\ fb_state b = SBlk) ->
+    exists f0, In f0 (cd_files d0) /\ cf_blocks f = cf_blocks f0 /\ cf_size f = cf_size f0 /\ cf_mtime f = cf_mtime f0 /\
+               cf_copy f = cf_copy f0 /\ (cf_nsec f = cf_nsec f0 \/ cf_nsec f0 = (-1)%Z) /\
+               (cf_name f = cf_name f0 \/ (nth k usable false = true /\ cf_inode f = cf_inode f0)).
+  Proof.
+    intros H k d0 Hk. destruct (scan_disk_sound usable c listing o H k d0 Hk) as [dk [A B]].
+    exists dk. split; [exact A | exact (ds_blk _ _ _ _ B)].
+  Qed.
 End Sound.
